@@ -273,8 +273,9 @@ class BaseParser:
                             constraints={"const": ref.__forward_value__},
                         )
                     resolved = True
-                    if self.is_local:
-                        clear_refs.append(ref)
+                    # (the reference objects are private copies made by register_forward_ref - typing's process-wide
+                    # cache of generic aliases never sees them -, so a local declaration keeps its resolved references
+                    # like any other: resetting them left union members such as Optional['Later'] unevaluated for good)
                     self.forward_refs.pop(name)
             except Exception:
                 if ignore_errors:
